@@ -552,6 +552,8 @@ func ruleSweep() []*c03lib.Session {
 	for v := 0; v < variants; v++ {
 		gen = append(gen, c03lib.GenRuleSweep(rng, v)...)
 	}
+	nsweep := len(gen)
+	gen = append(gen, c03lib.GenKeySweep()...) // cache-key sweep: texts that differ only in layout
 	seen := map[string]int{} // rule/sugg -> invalid requests sent
 	nreq := 0
 	for _, s := range runSessions("rules", gen) {
@@ -589,6 +591,7 @@ func ruleSweep() []*c03lib.Session {
 			}
 		}
 	}
+	c.Set("cache_key_sweep", map[string]any{"sessions": len(gen) - nsweep, "what": "12 texts that differ only in layout (trailing/leading blank, line breaks, tab, comma, white space inside a string literal, a comment that swallows the closing brace when the line break is folded) x {map, lru, lru over POST}: each a miss the first time and a hit the second"})
 	c.Set("rule_sweep", map[string]any{"sessions": len(out), "requests": nreq, "rules": c03lib.RuleNames(),
 		"invalid_documents": len(c03lib.InvalidByRule), "near_miss_documents": len(c03lib.NearMiss)})
 	fmt.Fprintf(os.Stderr, "[rules] %d sessions / %d requests: %d invalid documents of %d validation rules (+%d valid near-misses) x suggestions on/off x 4 caches x first/repeated/concurrent\n",
@@ -603,7 +606,9 @@ func reportPanics(s *c03lib.Session) {
 		case panicInSwap(s, p):
 			violateOnce(keyPanic, "a request panicked inside validator.Validate called from executor.parseQuery (nil RuleFunc in the global rule slice after concurrent RemoveRule/ReplaceRule)\nconfiguration: "+jsonStr(s.Cfg)+"\n"+tailStr(p, 1800), s)
 		case strings.Contains(firstFrame(p), "verifharness/"):
-			vlib.Infra("panic in harness code:\n%s", p)
+			// (decided at the end: a broken tree can drive the harness's schema into
+			// states it was not written for; a violation found elsewhere takes precedence)
+			deferredInfra = append(deferredInfra, "panic in harness code:\n"+p)
 		default:
 			c.Violate("panic:"+firstFrame(p), "a request panicked:\nconfiguration: "+jsonStr(s.Cfg)+"\n"+tailStr(p, 1800), s)
 		}
@@ -718,6 +723,7 @@ func validate(sessions []*c03lib.Session) {
 	fmt.Fprintf(os.Stderr, "[trace] %d sessions, %d trace lines validated against PipelineTrace (repaired rule model) in %.1fs: %d rejected\n", len(ok), nlines, time.Since(t0).Seconds(), len(rejs))
 	c.Set("trace_lines", nlines)
 	for _, r := range rejs {
+		rejectedSessions[r.s] = true
 		classifyRejection(r)
 	}
 	for _, s := range ok {
@@ -727,6 +733,9 @@ func validate(sessions []*c03lib.Session) {
 		}
 	}
 }
+
+// sessions the trace specification rejected (not used by the binding self-test)
+var rejectedSessions = map[*c03lib.Session]bool{}
 
 // classifyRejection decides what a session rejected by the repaired model is:
 // if the model of the current code (per-request swap, word level) explains it,
@@ -947,7 +956,7 @@ func selfTest(sessions []*c03lib.Session) {
 	res := map[string]string{}
 	for _, m := range muts {
 		for _, s := range sessions {
-			if len(s.Panics) > 0 || len(s.Lines) < 20 {
+			if len(s.Panics) > 0 || len(s.Lines) < 20 || rejectedSessions[s] {
 				continue
 			}
 			var evs []map[string]any
@@ -976,7 +985,7 @@ func selfTest(sessions []*c03lib.Session) {
 			break
 		}
 		if !done[m.name] {
-			vlib.Infra("binding self-test: no recorded session to apply corruption %q to", m.name)
+			deferredInfra = append(deferredInfra, fmt.Sprintf("binding self-test: no recorded session to apply corruption %q to", m.name))
 		}
 	}
 	c.Set("binding_self_test", res)
